@@ -217,9 +217,9 @@ class H:
         self.ops.append("mkroot %d %d" % (t, r)); self.roots[r] = dict(self.ref[t])
         return r
 
-    def load(self, r, store=0):
+    def load(self, r, store=0, nc=False):
         t = self.nt; self.nt += 1
-        self.ops.append("load %d %d %d %d" % (r, t, store, self.kind)); self.ref[t] = dict(self.roots[r])
+        self.ops.append("%s %d %d %d %d" % ("loadnc" if nc else "load", r, t, store, self.kind)); self.ref[t] = dict(self.roots[r])
         return t
 
     def cursor(self, t):
@@ -592,6 +592,12 @@ def prof_persist(rng, n, tier):
                 h.drain(x)
             h.ops.append("dirty %d" % x)
             h.ops.append("height %d" % x)
+            if rng.random() < 0.4:
+                # a clone of a tree with unsaved changes has unsaved changes too; persisting it writes them
+                c2 = h.clone(x)
+                h.ops.append("dirty %d" % c2)
+                if rng.random() < 0.5:
+                    h.mkroot(c2); h.ops.append("dirty %d" % c2)
             r2 = h.mkroot(x)
             h.ops.append("dirty %d" % x)
             if rng.random() < 0.5:
@@ -796,6 +802,35 @@ def prof_keyfuncs(rng, n, tier):
     return out
 
 PROFILES["keyfuncs"] = prof_keyfuncs
+
+def prof_dual(rng, n, tier):
+    """C05 / C18 / C02: the same contents written through one shared node cache to two stores (a dual
+    write), each root then loaded from its own store WITHOUT the cache (what a restarted process or a
+    replica sees), modified, persisted and loaded again"""
+    out = []
+    for i in range(n):
+        h = H("dual%d" % i, rng, cache=rng.choice(["big", "big", "tiny"]), bfs=BFS_SMALL + [16])
+        a = h.new(store=0); b = h.new(store=1)
+        script_start = len(h.ops)
+        build_tree(h, a, rng.choice([4, 15, 40, 90]))
+        # replay the very same updates on the second tree
+        for op in list(h.ops[script_start:]):
+            tk = op.split()
+            if tk[0] in ("ins", "del") and int(tk[1]) == a:
+                h.ops.append(" ".join([tk[0], str(b)] + tk[2:]))
+        h.ref[b] = dict(h.ref[a])
+        order = [(a, 0), (b, 1)] if rng.random() < 0.5 else [(b, 1), (a, 0)]
+        rs = {}
+        for t, st in order:
+            rs[st] = h.mkroot(t)
+        for st in (1, 0):
+            x = h.load(rs[st], store=st, nc=True); h.observe(x)
+            mutate(h, x, rng.randint(1, 6))
+            r2 = h.mkroot(x)
+            y = h.load(r2, store=st, nc=rng.random() < 0.7); h.observe(y)
+        out.append(h)
+    return out
+PROFILES["dual"] = prof_dual
 
 def prof_race(rng, n, tier):
     """C11: goroutines that each own trees derived from common persisted roots, one store, one cache"""
